@@ -8,6 +8,8 @@ From Coq Require Import ZifyBool ZifyN ZifyNat.
 From PyC Require Import Base Bip32Spec Bip32Impl.
 Import ListNotations.
 Open Scope N_scope.
+(* several checks compile concurrently in this tree; a shared .lia.cache has been seen to go stale *)
+Unset Lia Cache.
 
 (* ================= little-endian lemmas ================= *)
 Lemma le_length k : forall n, length (le k n) = k.
@@ -273,6 +275,55 @@ Proof.
     destruct (is_identity P _); reflexivity.
 Qed.
 
+
+(* the private step for ANY 256-bit kL, also outside the side condition of derive_private_refines:
+   kL' >= 2^256 makes to_bytes raise OverflowError; for 2^255 <= kL' < 2^256 the code stores kL' but
+   libsodium's noclamp multiplies by kL' mod 2^255 (see noclamp) *)
+Lemma derive_private_general w x xb index :
+  wf_priv w x -> w_xprv w = Some xb -> x_kL x < 2^256 -> in_index_range index = true ->
+  derive_private P w xb index =
+    let ZC := spec_Z_priv P x (Z.to_N index) in
+    let kL' := 8 * zL_of (fst ZC) + x_kL x in
+    let kR' := (zR_of (fst ZC) + x_kR x) mod 2^256 in
+    if 2^256 <=? kL' then Err EOverflow else
+    bind (noclamp P (le 32 kL')) (fun A =>
+      Ok {| w_root_xprv := w_root_xprv w; w_root_pub := w_root_pub w; w_root_cc := w_root_cc w;
+            w_xprv := Some (le 32 kL' ++ le 32 kR'); w_pub := A; w_cc := skipn 32 (snd ZC);
+            w_path := child_path (w_path w) index |}).
+Proof.
+  intros (Hx & Hp & Hc & HR & Hroot) Hxb HkL Hr.
+  assert (Exb : xb = ser256 (x_kL x) ++ ser256 (x_kR x)) by congruence. subst xb. clear Hxb.
+  unfold derive_private, spec_Z_priv, hardened_threshold.
+  rewrite Hr. cbn [negb].
+  rewrite (firstn_app_exact _ _ 32 (ser256_length _)), (skipn_app_exact _ _ 32 (ser256_length _)).
+  rewrite Hp, Hc. unfold xprv_pub.
+  rewrite (unle_ser256 _ HkL), (unle_ser256 _ HR).
+  set (i := Z.to_N index) in *.
+  assert (Fin : forall Z c,
+    match to_bytes_le 32 (unle (firstn 28 Z) * 8 + x_kL x) with
+    | Some kL => match to_bytes_le 32 ((unle (skipn 32 Z) + x_kR x) mod 2^256) with
+                 | Some kR => bind (noclamp P kL) (fun A =>
+                     Ok {| w_root_xprv := w_root_xprv w; w_root_pub := w_root_pub w; w_root_cc := w_root_cc w;
+                           w_xprv := Some (kL ++ kR); w_pub := A; w_cc := c; w_path := child_path (w_path w) index |})
+                 | None => Err EOverflow end
+    | None => Err EOverflow end
+    = if 2^256 <=? 8 * zL_of Z + x_kL x then Err EOverflow else
+      bind (noclamp P (le 32 (8 * zL_of Z + x_kL x))) (fun A =>
+        Ok {| w_root_xprv := w_root_xprv w; w_root_pub := w_root_pub w; w_root_cc := w_root_cc w;
+              w_xprv := Some (le 32 (8 * zL_of Z + x_kL x) ++ le 32 ((zR_of Z + x_kR x) mod 2^256)); w_pub := A; w_cc := c;
+              w_path := child_path (w_path w) index |})).
+  { intros Z c. unfold zL_of, zR_of.
+    rewrite (N.mul_comm (unle (firstn 28 Z)) 8).
+    rewrite (to_bytes_le_32 ((unle (skipn 32 Z) + x_kR x) mod 2^256)) by (apply N.mod_upper_bound; lia).
+    destruct (2^256 <=? 8 * unle (firstn 28 Z) + x_kL x) eqn:E.
+    - unfold to_bytes_le. rewrite pow256_32.
+      replace (8 * unle (firstn 28 Z) + x_kL x <? 2^256) with false by lia. reflexivity.
+    - rewrite to_bytes_le_32 by lia. reflexivity. }
+  cbv zeta.
+  destruct (i <? 2^31).
+  - cbn [app fst snd]. rewrite Fin. reflexivity.
+  - cbn [app fst snd]. rewrite <- !app_assoc. rewrite Fin. reflexivity.
+Qed.
 
 Definition eff_index (index : Z) (hardened : bool) : Z := if hardened then (index + 2^31)%Z else index.
 
@@ -615,7 +666,8 @@ Proof.
   - apply N.ltb_lt in E. exists [digit_char (n mod 10)]. repeat split.
     + discriminate.
     + constructor; [exact D1|constructor].
-    + intros a. cbn. rewrite D2, N.mod_small by exact E. lia.
+    + intros a. unfold dval. cbn [fold_left length]. change (N.of_nat 1) with 1. rewrite N.pow_1_r.
+      rewrite D2, N.mod_small by exact E. lia.
   - apply N.ltb_ge in E.
     assert (Hf' : (0 < f)%nat).
     { destruct f; [|lia]. cbn in Hn. lia. }
@@ -649,7 +701,7 @@ Lemma digits_us_digits : forall ds acc flag, all_digits ds -> (ds <> [] \/ flag 
   digits_us ds acc flag = Some (dval ds acc).
 Proof.
   induction ds as [|c ds IH]; intros acc flag Hd Hne.
-  - destruct Hne as [H|->]; [congruence|reflexivity].
+  - destruct Hne as [H| ->]; [congruence|reflexivity].
   - inversion Hd as [|? ? Hc Hds]; subst. cbn [digits_us]. rewrite Hc.
     rewrite IH by auto. reflexivity.
 Qed.
@@ -761,14 +813,24 @@ Proof.
   - rewrite app_nil_r, ends_with_quote_digits by exact H2. rewrite py_int_render. reflexivity.
 Qed.
 
+Lemma fold_components private : forall steps acc,
+  fold_left (derive_component P private) (map render_step steps) acc = fold_left (step_fun private) steps acc.
+Proof.
+  induction steps as [|s steps IH]; intros acc; [reflexivity|].
+  cbn [map fold_left]. rewrite derive_component_render. apply IH.
+Qed.
+
+Lemma dfp_unfold w rest private :
+  derive_from_path P w ("m"%char :: slash :: rest) private
+  = fold_left (derive_component P private) (split_slash (lstrip_m_slash rest) []) (Ok w).
+Proof. reflexivity. Qed.
+
 (* path-string derivation = step-by-step derivation, for every non-empty list of steps,
    every index (also >= 2^31 and >= 2^32, where both sides fail alike), both modes *)
 Lemma derive_from_path_render w steps private : steps <> [] ->
   derive_from_path P w (render_path steps) private = fold_left (step_fun private) steps (Ok w).
 Proof.
-  intros Hne. unfold render_path, derive_from_path.
-  change (lstrip_m_slash ("m"%char :: slash :: join_slash (map render_step steps)))
-    with (lstrip_m_slash (join_slash (map render_step steps))).
+  intros Hne. unfold render_path. rewrite dfp_unfold.
   assert (Hj : exists c r, join_slash (map render_step steps) = c :: r /\ is_digit c = true).
   { destruct steps as [|s steps]; [congruence|].
     destruct (render_step_shape s) as (c & r & E & Hc & _).
@@ -779,12 +841,128 @@ Proof.
       rewrite E. auto. }
   destruct Hj as (c & r & Ej & Hc). rewrite Ej, lstrip_m_slash_digit by exact Hc. rewrite <- Ej.
   rewrite split_join.
-  - generalize (Ok w). induction steps as [|s steps IH]; intros acc; [reflexivity|].
-    cbn [map fold_left]. rewrite derive_component_render.
-    destruct steps as [|s' steps]; [reflexivity|]. apply IH. discriminate.
+  - apply fold_components.
   - destruct steps; [congruence|discriminate].
   - apply Forall_forall. intros x Hx. apply in_map_iff in Hx as (s & <- & _).
     destruct (render_step_shape s) as (_ & _ & _ & _ & H). exact H.
 Qed.
 
 End PathString.
+
+(* ================= signatures of derived keys ================= *)
+Lemma ell_bounds : 0 < ell /\ ell < 2^253.
+Proof. split; reflexivity. Qed.
+
+Section Signatures.
+Variable P : prims.
+Local Notation enc := (enc_pt P).
+Local Notation sB := (smulB P).
+
+Hypothesis enc_len : forall g, length (enc g) = 32%nat.
+Hypothesis dec_enc : forall g, dec_pt P (enc g) = Some g.
+Hypothesis smulB_add : forall a b, sB (a + b) = gadd P (sB a) (sB b).
+Hypothesis smulB_0 : sB 0 = gzero P.
+Hypothesis smulB_ell : sB ell = gzero P.
+Hypothesis gadd_zero_l : forall g, gadd P (gzero P) g = g.
+Hypothesis gadd_comm : forall a b, gadd P a b = gadd P b a.
+Hypothesis smul_0 : forall g, smul P 0 g = gzero P.
+Hypothesis smul_succ : forall n g, smul P (N.succ n) g = gadd P g (smul P n g).
+
+Lemma sB_mul_ell q : sB (ell * q) = gzero P.
+Proof.
+  induction q as [|q IH] using N.peano_ind.
+  - rewrite N.mul_0_r. exact smulB_0.
+  - rewrite N.mul_succ_r, smulB_add, IH, smulB_ell. apply gadd_zero_l.
+Qed.
+
+Lemma sB_mod a : sB (a mod ell) = sB a.
+Proof.
+  rewrite (N.div_mod a ell) at 2 by (pose proof ell_bounds; lia).
+  rewrite smulB_add, sB_mul_ell, gadd_zero_l. reflexivity.
+Qed.
+
+Lemma sB_mul a b : sB (a * b) = smul P a (sB b).
+Proof.
+  induction a as [|a IH] using N.peano_ind.
+  - rewrite N.mul_0_l, smul_0. exact smulB_0.
+  - rewrite N.mul_succ_l, smulB_add, IH, smul_succ. apply gadd_comm.
+Qed.
+
+Lemma noclamp_ok n q : noclamp P n = Ok q ->
+  length n = 32%nat /\ q = enc (sB (unle n mod 2^255)) /\ unle n <> 0.
+Proof.
+  unfold noclamp. destruct (length n =? 32)%nat eqn:L; [|discriminate]. cbn [negb].
+  destruct (bytes_eqb _ _ || (unle n =? 0)) eqn:E; [discriminate|].
+  intros H. apply Ok_inj in H. apply orb_false_iff in E as (_ & E).
+  apply Nat.eqb_eq in L. apply N.eqb_neq in E. auto.
+Qed.
+
+(* a signature made with an extended private key whose kL is below 2^255 (every key derived from an
+   Icarus root within 2^26 levels) satisfies the Ed25519 verification equation under kL·B *)
+Lemma sign_verifies priv msg sig :
+  unle (firstn 32 priv) < 2^255 ->
+  bip32_sign P priv msg = Ok sig ->
+  ed_verify P (enc (sB (unle (firstn 32 priv)))) msg sig = true.
+Proof.
+  intros HkL. unfold bip32_sign.
+  set (kL := unle (firstn 32 priv)) in *.
+  destruct (noclamp P (firstn 32 priv)) as [A|] eqn:EA; [|discriminate]. cbn [bind].
+  destruct (noclamp_ok _ _ EA) as (_ & HA & _). fold kL in HA. rewrite N.mod_small in HA by exact HkL.
+  set (r := unle (sha512 P (skipn 32 priv ++ msg)) mod ell).
+  assert (Hr : r < ell) by (apply N.mod_upper_bound; pose proof ell_bounds; lia).
+  destruct (noclamp P (le 32 r)) as [R|] eqn:ER; [|discriminate]. cbn [bind].
+  destruct (noclamp_ok _ _ ER) as (_ & HR & _).
+  pose proof ell_bounds as (E0 & E1).
+  rewrite unle_le_small in HR by (rewrite pow256_32; lia).
+  rewrite N.mod_small in HR by lia.
+  subst A R. clear EA ER.
+  set (R := enc (sB r)). set (A := enc (sB kL)).
+  set (h := unle (sha512 P (R ++ A ++ msg)) mod ell).
+  set (S := ((h mod ell * (kL mod ell)) mod ell + r) mod ell).
+  assert (HS : S < ell) by (apply N.mod_upper_bound; lia).
+  intros H. apply Ok_inj in H. subst sig.
+  unfold ed_verify.
+  assert (LR : length R = 32%nat) by apply enc_len.
+  rewrite (firstn_app_exact _ _ 32 LR), (skipn_app_exact _ _ 32 LR).
+  rewrite unle_le_small by (rewrite pow256_32; lia).
+  unfold A at 1, R at 1. rewrite !dec_enc.
+  rewrite app_length, LR, le_length. cbn [Nat.add Nat.eqb andb].
+  replace (S <? ell) with true by (symmetry; apply N.ltb_lt; exact HS). cbn [andb].
+  unfold hram. fold h.
+  replace (sB S) with (gadd P (sB r) (smul P h (sB kL))); [apply bytes_eqb_refl|].
+  unfold S. rewrite sB_mod, smulB_add, sB_mod, sB_mul, sB_mod.
+  replace (h mod ell) with h by (unfold h; rewrite N.mod_mod by lia; reflexivity). apply gadd_comm.
+Qed.
+
+(* ExtendedSigningKey.from_hdwallet(w).sign(m) verifies under from_hdwallet(w).to_verification_key()
+   (= the wallet's derived public key), for every wallet that holds the private key x with kL < 2^255 *)
+Lemma derived_key_signature w x payload msg sig :
+  wf_priv P w x -> x_kL x < 2^255 ->
+  esk_from_hdwallet w = Ok payload -> esk_sign P payload msg = Ok sig ->
+  payload = ser256 (x_kL x) ++ ser256 (x_kR x) ++ enc (sB (x_kL x)) ++ x_c x
+  /\ evk_to_non_extended (esk_to_vk payload) = w_pub w
+  /\ ed_verify P (w_pub w) msg sig = true.
+Proof.
+  intros (Hx & Hp & Hc & HR & _) HkL Hpay Hsig.
+  unfold esk_from_hdwallet in Hpay. rewrite Hx, Hp, Hc in Hpay. apply Ok_inj in Hpay.
+  assert (L64 : length (ser256 (x_kL x) ++ ser256 (x_kR x)) = 64%nat)
+    by (rewrite app_length, !ser256_length; reflexivity).
+  assert (F : firstn 64 payload = ser256 (x_kL x) ++ ser256 (x_kR x)) by (subst payload; apply firstn_app_exact, L64).
+  assert (S64 : skipn 64 payload = enc (sB (x_kL x)) ++ x_c x) by (subst payload; apply skipn_app_exact, L64).
+  split; [subst payload; now rewrite <- app_assoc|].
+  unfold evk_to_non_extended, esk_to_vk. rewrite S64, Hp.
+  split; [apply firstn_app_exact, enc_len|].
+  unfold esk_sign in Hsig. rewrite F in Hsig.
+  pose proof (sign_verifies (ser256 (x_kL x) ++ ser256 (x_kR x)) msg sig) as V.
+  rewrite (firstn_app_exact _ _ 32 (ser256_length _)) in V.
+  rewrite unle_ser256 in V by lia. apply V; assumption.
+Qed.
+
+Lemma public_only_wallet_has_no_signing_key w : w_xprv w = None ->
+  esk_from_hdwallet w = Err EInvalidKeyType /\ forall i h, derive P w i true h = Err EValue.
+Proof.
+  intros H. unfold esk_from_hdwallet, derive. rewrite H. split; [reflexivity|].
+  intros i h. destruct (is_empty _ && is_empty _); reflexivity.
+Qed.
+
+End Signatures.
